@@ -340,31 +340,35 @@ theorem C07_required_payload (cls : String) (expected table : Str) (doc : PyVal)
     (h1 : headerFill expected doc = .ok hv) (h2 : getItem doc c!"payload" = .error e) :
     ∀ m, simpleFill cls expected table none doc ≠ .ok m := by
   intro m hm
-  simp [simpleFill, h1, h2, bind, Except.bind] at hm
+  simp [simpleFill, h1, h2, bind, Except.bind, pure, Except.pure] at hm
 
 theorem C07_required_compose (vt : Nat × Nat) (payload : PyVal) (e : Err) (h : getItem payload c!"compose" = .error e) :
     ∀ o, composeFill vt payload ≠ .ok o := by
   intro o ho
   unfold composeFill at ho
-  cases hn : notLegacy Gen.gate_composeinfo_Compose_deserialize_0 vt <;> simp [hn, h, bind, Except.bind] at ho
+  cases hn : gateB Gen.gate_composeinfo_Compose_deserialize_0 vt <;> simp [hn, h, bind, Except.bind] at ho
 
+/-- `id` and `type` are required in every format version; `date` and `respin` from 0.3 on (below, `deserialize_0_3` decodes them
+from the id and never looks at the keys: `C07_compose_0_2_no_date_witness`) -/
 theorem C07_required_compose_key (vt : Nat × Nat) (payload sec : PyVal) (k : Str) (e : Err)
-    (hk : k = c!"id" ∨ k = c!"type" ∨ k = c!"date" ∨ k = c!"respin")
+    (hk : k = c!"id" ∨ k = c!"type" ∨ ((k = c!"date" ∨ k = c!"respin") ∧ Gen.gate_composeinfo_Compose_deserialize_0.eval? vt = some false))
     (h1 : getItem payload c!"compose" = .ok sec) (h2 : getItem sec k = .error e) :
     ∀ o, composeFill vt payload ≠ .ok o := by
   intro o ho
-  unfold composeFill at ho
-  cases hn : notLegacy Gen.gate_composeinfo_Compose_deserialize_0 vt <;>
+  unfold composeFill gateB at ho
+  cases hg : Gen.gate_composeinfo_Compose_deserialize_0.eval? vt with
+  | none => simp [hg, bind, Except.bind] at ho
+  | some b =>
     cases ha : getItem sec c!"id" <;> cases hb : getD sec c!"label" .none <;> cases hc : getItem sec c!"type" <;>
-    cases hd : getItem sec c!"date" <;> cases he : getItem sec c!"respin" <;>
-    rcases hk with rfl | rfl | rfl | rfl <;> simp_all [bind, Except.bind]
+    cases hd : getItem sec c!"date" <;> cases he : getItem sec c!"respin" <;> cases b <;>
+    rcases hk with rfl | rfl | ⟨rfl | rfl, hf⟩ <;> simp_all [bind, Except.bind]
 
 /-- the payload table (`rpms` / `modules` / `extra_files`) is required -/
 theorem C07_required_table (cls : String) (expected table : Str) (doc payload : PyVal) (hv : Obj × (Nat × Nat)) (c : Obj) (e : Err)
     (h1 : headerFill expected doc = .ok hv) (h2 : getItem doc c!"payload" = .ok payload) (h3 : composeFill hv.2 payload = .ok c)
     (h4 : getItem payload table = .error e) : ∀ m, simpleFill cls expected table none doc ≠ .ok m := by
   intro m hm
-  simp [simpleFill, h1, h2, h3, h4, bind, Except.bind] at hm
+  simp [simpleFill, h1, h2, h3, h4, bind, Except.bind, pure, Except.pure] at hm
 
 /-! ## non-vacuity -/
 
